@@ -44,6 +44,11 @@ CHECKS = {
     text="Pairs and triples of phased VCFs over common variants (ploidy 2-4, PS/HP, random block structures, multi-allelic sites, absent and unphased variants) are compared by run_compare; every TSV number, BED record, longest-block agreement and multiway count is recomputed from the generating model with brute-force definitions (orientation sequences, minima over permutation sequences); relabelling the haplotypes of any phase set must not change any output.",
     note="Trusted: the brute-force definitions in vlib/oracles.py; for ploidy >= 3 only the total switch+flip cost is compared; diploid switch counts are judged only on blocks whose genotypes agree (otherwise the notion is undefined).",
     ref="DESIGN.md section 4, C11"),
+ "C14": dict(
+    technique="property-based testing (Hypothesis): generated read files x haplotag lists x option combinations vs. an independent routing model",
+    text="Unaligned BAM / FASTQ / FASTQ.gz inputs with duplicate names and empty sequences, 2- and 4-column lists with/without header and 'none' entries, ploidy 2-4 and every option combination are run through run_split; each output file must equal the subsequence of the input that a routing model built from the list sends to it, outputs must partition the input when all are requested, and histogram columns must match the routed counts.",
+    note="Trusted: the routing model in props/c14_split.py; list names unique; ties for the largest block are not judged.",
+    ref="DESIGN.md section 4, C14"),
 }
 
 NOT_YET = {}
